@@ -96,15 +96,53 @@ def model_rows(mo):
                 continue
             attrs[k] = v
         rows.append({"cls": r["cls"], "id": r["id"], "browse": r["browse"], "browse_ns": r["browse_ns"], "display": r["display"],
-                     "description": r["description"], "dt": r["dt"], "parent": r["parent"], "md": r["md"], "attrs": attrs})
+                     "description": r["description"], "dt": r["dt"], "parent": r["parent"], "md": r["md"], "attrs": attrs,
+                     "value": norm_model_value(r.get("value"))})
     return rows
+
+
+def norm_model_value(v):
+    """model value JSON -> the normal form used for comparisons (raw XML as white-space-stripped trees)"""
+    import parsecheck
+    import xmltree
+    if v is None:
+        return None
+    if v["t"] == "PyNone":
+        return {"t": "PyNone"}
+    if v["t"] == "XmlElement":
+        return {"t": "XmlElement", "tree": xmltree.strip_ws(v["tree"])}
+    if v["t"] == "ExtensionObject":
+        return {"t": "ExtensionObject", "type": v["type"], "tree": xmltree.strip_ws(v["tree"])}
+    if v["t"] == "ListOf":
+        return {"t": "ListOf", "typename": v["typename"], "items": [norm_model_value(x) for x in v["items"]]}
+    return parsecheck.norm_value(v)
+
+
+def norm_impl_value(v):
+    import lxml.etree as ET
+    import parsecheck
+    import xmltree
+    if v is None:
+        return None
+    if v["t"] == "PyNone":
+        return {"t": "PyNone"}
+    if v["t"] == "XmlElement":
+        return {"t": "XmlElement", "tree": xmltree.strip_ws(xmltree.resolved(ET.fromstring(v["v"])))}
+    if v["t"] == "ExtensionObject":
+        body = v["body"]
+        return {"t": "ExtensionObject", "type": v["type"], "tree": xmltree.strip_ws(xmltree.resolved(ET.fromstring(body["v"])))}
+    if v["t"] == "ListOf":
+        return {"t": "ListOf", "typename": v["typename"], "items": [norm_impl_value(x) for x in v["items"]]}
+    return parsecheck.norm_value(v)
 
 
 ROW_KEYS = ["cls", "id", "browse", "browse_ns", "display", "description", "dt", "parent", "md", "attrs"]
 
 
 def strip_row(r):
-    return {k: r[k] for k in ROW_KEYS}
+    d = {k: r[k] for k in ROW_KEYS}
+    d["value"] = norm_impl_value(r.get("value"))
+    return d
 
 
 def resolve(ns_list, nid):
